@@ -9,6 +9,7 @@ from props.session_common import SessionProp, X
 class C12(SessionProp):
     id = "C12"
     prop_file = "Props/C12"
+    unenc = 0.04
     rule = (
         "seeded histories (1-14 calls) of client or server sessions interleaving send calls, deliveries and "
         "data_to_send(amount) with amount in {None,0,1,2,5,16,1000,-1,-3,65536,70000}; corpus and 1% family of long histories (257-330 complete request/response cycles, then replays of retired ids) and of 64-128 KiB queues handed out by partial drains with refused sends in between; the implementation is driven through its "
